@@ -29,6 +29,9 @@ def ListOfDicts_init_decorators : List String := []
 /-- the signature of dataiter/list_of_dicts.py: ListOfDicts.__init__: parameters in order, with the source text of their defaults -/
 def ListOfDicts_init_signature : List String := ["self", "dicts=()", "*", "as_is=False"]
 
+/-- the calls of dataiter/list_of_dicts.py: ListOfDicts.__init__ in the order Python makes them along the source text -/
+def ListOfDicts_init_call_order : List String := ["super", "map", "super().__init__"]
+
 /-- dataiter/list_of_dicts.py: ListOfDicts._new (sha256 of the function source: 896a760aaaf7e011) -/
 def ListOfDicts_new (truth : Term → Bool) : Out :=
   let new' : Term := (Term.app ".__class__" [(Term.sym "self"), (Term.sym "dicts"), (Term.app "=as_is" [(Term.sym "True")])]);
@@ -44,6 +47,9 @@ def ListOfDicts_new_decorators : List String := []
 /-- the signature of dataiter/list_of_dicts.py: ListOfDicts._new: parameters in order, with the source text of their defaults -/
 def ListOfDicts_new_signature : List String := ["self", "dicts"]
 
+/-- the calls of dataiter/list_of_dicts.py: ListOfDicts._new in the order Python makes them along the source text -/
+def ListOfDicts_new_call_order : List String := ["self.__class__"]
+
 /-- dataiter/list_of_dicts.py: ListOfDicts.__deepcopy__ (sha256 of the function source: 2115d0b9f19d77b6) -/
 def ListOfDicts_deepcopy (truth : Term → Bool) : Out :=
   let new' : Term := (Term.app ".__class__" [(Term.sym "self"), (Term.app "map" [(Term.sym "copy.deepcopy"), (Term.sym "self")]), (Term.app "=as_is" [(Term.sym "True")])]);
@@ -57,6 +63,9 @@ def ListOfDicts_deepcopy_decorators : List String := []
 /-- the signature of dataiter/list_of_dicts.py: ListOfDicts.__deepcopy__: parameters in order, with the source text of their defaults -/
 def ListOfDicts_deepcopy_signature : List String := ["self", "memo=None"]
 
+/-- the calls of dataiter/list_of_dicts.py: ListOfDicts.__deepcopy__ in the order Python makes them along the source text -/
+def ListOfDicts_deepcopy_call_order : List String := ["map", "self.__class__"]
+
 /-- dataiter/list_of_dicts.py: ListOfDicts.__copy__ (sha256 of the function source: 4d81bfa2b7fe6e21) -/
 def ListOfDicts_copy (truth : Term → Bool) : Out :=
   Out.ret [] (Term.app "._new" [(Term.sym "self"), (Term.sym "self")])
@@ -66,6 +75,9 @@ def ListOfDicts_copy_decorators : List String := []
 
 /-- the signature of dataiter/list_of_dicts.py: ListOfDicts.__copy__: parameters in order, with the source text of their defaults -/
 def ListOfDicts_copy_signature : List String := ["self"]
+
+/-- the calls of dataiter/list_of_dicts.py: ListOfDicts.__copy__ in the order Python makes them along the source text -/
+def ListOfDicts_copy_call_order : List String := ["self._new"]
 
 /-- dataiter/list_of_dicts.py: ListOfDicts._mark_obsolete (sha256 of the function source: f28eef876f7e4755) -/
 def ListOfDicts_mark_obsolete (truth : Term → Bool) : Out :=
@@ -85,6 +97,9 @@ def ListOfDicts_mark_obsolete_decorators : List String := []
 /-- the signature of dataiter/list_of_dicts.py: ListOfDicts._mark_obsolete: parameters in order, with the source text of their defaults -/
 def ListOfDicts_mark_obsolete_signature : List String := ["self"]
 
+/-- the calls of dataiter/list_of_dicts.py: ListOfDicts._mark_obsolete in the order Python makes them along the source text -/
+def ListOfDicts_mark_obsolete_call_order : List String := ["isinstance", "self._predecessor._mark_obsolete"]
+
 /-- dataiter/list_of_dicts.py: ListOfDicts.__getattribute__ (sha256 of the function source: a8de21611f165ea9) -/
 def ListOfDicts_getattribute (truth : Term → Bool) : Out :=
   let value' : Term := (Term.app "super().__getattribute__" [(Term.sym "name")]);
@@ -102,6 +117,9 @@ def ListOfDicts_getattribute_decorators : List String := []
 /-- the signature of dataiter/list_of_dicts.py: ListOfDicts.__getattribute__: parameters in order, with the source text of their defaults -/
 def ListOfDicts_getattribute_signature : List String := ["self", "name"]
 
+/-- the calls of dataiter/list_of_dicts.py: ListOfDicts.__getattribute__ in the order Python makes them along the source text -/
+def ListOfDicts_getattribute_call_order : List String := ["super", "super().__getattribute__", "callable", "print"]
+
 /-- dataiter/deco.py: obsoletes.wrapper (sha256 of the function source: 17886f707cd2e2ec) -/
 def deco_obsoletes_wrapper (truth : Term → Bool) : Out :=
   let value' : Term := (Term.app "function" [(Term.sym "self"), (Term.app "*" [(Term.sym "args")]), (Term.app "=**" [(Term.sym "kwargs")])]);
@@ -114,6 +132,9 @@ def deco_obsoletes_wrapper_decorators : List String := ["functools.wraps(functio
 /-- the signature of dataiter/deco.py: obsoletes.wrapper: parameters in order, with the source text of their defaults -/
 def deco_obsoletes_wrapper_signature : List String := ["self", "*args", "**kwargs"]
 
+/-- the calls of dataiter/deco.py: obsoletes.wrapper in the order Python makes them along the source text -/
+def deco_obsoletes_wrapper_call_order : List String := ["function", "self._mark_obsolete"]
+
 /-- dataiter/deco.py: new_from_generator.wrapper (sha256 of the function source: 0126d48e1ed23c37) -/
 def deco_new_from_generator_wrapper (truth : Term → Bool) : Out :=
   let value' : Term := (Term.app "function" [(Term.sym "self"), (Term.app "*" [(Term.sym "args")]), (Term.app "=**" [(Term.sym "kwargs")])]);
@@ -124,5 +145,8 @@ def deco_new_from_generator_wrapper_decorators : List String := ["functools.wrap
 
 /-- the signature of dataiter/deco.py: new_from_generator.wrapper: parameters in order, with the source text of their defaults -/
 def deco_new_from_generator_wrapper_signature : List String := ["self", "*args", "**kwargs"]
+
+/-- the calls of dataiter/deco.py: new_from_generator.wrapper in the order Python makes them along the source text -/
+def deco_new_from_generator_wrapper_call_order : List String := ["function", "self._new"]
 
 end DI.Gen
